@@ -26,6 +26,7 @@ import ast
 # Control structure types that increase nesting depth
 _CONTROL_STRUCTURES = (
     ast.For,
+    ast.AsyncFor,
     ast.While,
     ast.With,
     ast.AsyncWith,
